@@ -89,4 +89,4 @@ def run(ctx):
 # 12 light.rs value(): "false" reported as Bool(true)                      caught (value kind)
 # 13 light.rs decode_escapes maps \u2028 to U+2029 (single code point)    MISSED by the first generator (random code points)
 #    -> strengthened: families usweep-u / usweep-lit put EVERY BMP scalar value (and samples of every
-#    astral plane) once in \uXXXX form and once literally into each run; see final report for the re-run.
+#    astral plane) once in \uXXXX form and once literally into each run; re-run: caught (str).
